@@ -806,17 +806,13 @@ class AndMaybeMatcher(AdditiveBiMatcher):
         if not b.is_active():
             return a.skip_to_quality(minquality)
 
-        skipped = 0
-        aq = a.block_quality()
-        bq = b.block_quality()
-        while a.is_active() and b.is_active() and aq + bq < minquality:
-            if aq < bq:
-                skipped += a.skip_to_quality(minquality - bq)
-                aq = a.block_quality()
-            else:
-                skipped += b.skip_to_quality(minquality - aq)
-                bq = b.block_quality()
-
+        # Only blocks of the required matcher can be skipped, and only if
+        # they cannot reach the minimum quality with the best possible
+        # contribution of the optional matcher (whose current block says
+        # nothing about the documents of the skipped block)
+        skipped = a.skip_to_quality(minquality - b.max_quality())
+        if a.is_active() and b.is_active():
+            b.skip_to(a.id())
         return skipped
 
     def weight(self):
